@@ -3,7 +3,7 @@ from .. import prio, timed
 from ..core import Suite
 
 SUITES = [
-    Suite("prio1-stop", prio.prio1_generate(0.0, 1.0), prio.prio1_project("C16"), prio.monitor_prio1("C16"),
+    Suite("prio1-stop", prio.prio1_generate_with_injection(0.0, 1.0, "stop"), prio.prio1_project("C16"), prio.monitor_prio1("C16"),
           rule=prio.PRIO1_RULE, version="v1", impl_ints=False, batch_timeout=120),
     Suite("join1-stop", timed.join_stop_generate(), timed.project_join_stop, timed.monitor_join_stop,
           rule=timed.JOIN_RULE + "; v1 join with Stop() at a random instant; the model is run under every resolution of the (at most three) "
